@@ -17,6 +17,8 @@ Events are dicts of ints / strings / lists / dicts only (TLC's JSON reader has n
 Each event may carry "sig": a short abstract description of the operation shape used for violation signatures.
 """
 import concurrent.futures as cf
+import contextlib
+import io
 import hashlib
 import importlib
 import json
@@ -108,7 +110,8 @@ def _exec_chunk(args):
     out = []
     for idx, case in chunk:
         try:
-            tr = mod.execute(case)
+            with contextlib.redirect_stdout(io.StringIO()):      # the library prints progress messages
+                tr = mod.execute(case)
             for e in tr["ev"]:
                 check_jsonable(e)
         except MachineryError as ex:
